@@ -36,6 +36,8 @@ def build_plasmids(ctx, enz, ohs):
             v = gens.gen_vector(rng, enz, u, d, rng.randrange(2, 6), rng.randrange(0, 5))
             if m is None or v is None:
                 raise RuntimeError("could not build site-free plasmids for %s" % enz["name"])
+            m["seq"] = gens.reorigin(rng, m)      # read from a random origin, mostly inside the flanks
+            v["seq"] = gens.reorigin(rng, v)
             mods[(u, d)] = m
             vecs[(u, d)] = v
     return mods, vecs
